@@ -107,4 +107,4 @@ def run(ctx):
                    samples=acc[:3] + [x for x in acc if x["il"]][:2])
     ctx.assumptions += ["IP and SCION clients alternate per schedule (SCION: same-AS empty path, no SPAO - see C13)",
                         "a datagram reaches only the socket it was addressed to (no ephemeral-port reuse)",
-                        "loopback kernel software timestamps; identification windows of 4 ms around harness kernel timestamps"]
+                        "loopback kernel software timestamps; causal identification windows between neighbouring harness network events"]
